@@ -54,7 +54,7 @@ CHECKS.update({
              text='Every load/store is bounds-, liveness-, initialisation- and alignment-checked, every signed arithmetic, shift, division and float->int conversion is checked for undefinedness, and every library release assert / abort is a violation when the harness respected the documented preconditions. Families: event queue at capacity (7-17 pending) while the dispatcher wakes 2-17 waiters of the executing or cancelled event, 9-27 processes queued on one resource / pool / condition, 1-300 waiters of an ending process, 66-130 pool chunks, data arrays at 1024->1025, empty and single-sample containers, plus a cross-section of the scenario families of the other properties.',
              ref='DESIGN.md section 4 C10', note=E1NOTE + '; allocation failure, stack overflow of coroutine stacks, -DNASSERT builds and output formatting are outside; sanitizer builds are used only to confirm counterexamples'),
  'C16': dict(engine='E1 symex + E2 cbmc', technique='every raw generator output is a fresh solver variable; support assertions decided by z3 (exact reals) and, for dice, by CBMC with IEEE semantics',
-             text='SUPPORT half of the property only: uniform, Bernoulli, flip, triangular, dice (bit-exact, all a<b within +-2^31 and every draw), loaded dice and alias tables (1-3 symbolic probabilities within the accepted tolerance), Pareto, binomial, geometric and negative binomial at p = 1; on the ziggurat hot paths for listed layers, 2-4 concrete shape values on both sides of 1 (std_gamma: any shape in [0.01, 4], first iteration) and 3-6 raw draws per call chain: logistic, normal, lognormal, Rayleigh, Cauchy, exponential, Erlang, hypo-/hyperexponential, Weibull, Poisson, gamma, beta, PERT, chi-squared, F, t. The distributional half (moments / frequencies converge) is not applicable to bounded solver-based checking; the ziggurat fall-back paths beyond 6 (thorough 37) index bytes and 4 draws, the geometry of the generated tables, IEEE rounding of uniform/triangular and floating-point under-/overflow are not decided.',
+             text='SUPPORT half of the property only: uniform, Bernoulli, flip, triangular, dice (bit-exact, all a<b within +-2^31 and every draw), loaded dice and alias tables (1-3 symbolic probabilities within the accepted tolerance), Pareto, binomial, geometric and negative binomial at p = 1; on the ziggurat hot paths for listed layers, 2-4 concrete shape values on both sides of 1 (std_gamma: any shape in [0.01, 4], first iteration) and 3-6 raw draws per call chain: logistic, normal, lognormal, Rayleigh, Cauchy, exponential, Erlang, hypo-/hyperexponential, Weibull, Poisson, gamma, beta, PERT, chi-squared, F, t. The distributional half (moments / frequencies converge) is not applicable to bounded solver-based checking; the ziggurat fall-back paths beyond 6 (thorough 21) index bytes and 4 draws, the geometry of the generated tables, IEEE rounding of uniform/triangular and floating-point under-/overflow are not decided.',
              ref='DESIGN.md section 4 C16', note='over-approximation: any 64-bit value may be drawn; exact reals except the CBMC dice harness; libm as uninterpreted functions with sign/monotonicity contracts; ' + E1NOTE),
  'C19': dict(engine='E1 symex (engine threads)', technique='symbolic execution of cimba_run_experiment and worker_thread_func with interpreter threads; every schedule within a preemption bound is a forked state; isolation by self-composition',
              text='1-4 trials (thorough 6) on 1-3 worker threads with a switch possible after every atomic operation and every plain access to a shared global (<= 2-3 preemptions): every trial runs exactly once with its own element and the call returns after all of them, also with per-trial functions; a representative trial (event queue, processes, resource, raw draws, flips, logger flags) gives identical results before and after a different trial on the same thread; the inventory of non-thread-local mutable globals of the linked library is checked against the dispatcher globals.',
